@@ -76,6 +76,10 @@ class FFCXBackendSymbols:
         self.quadrature_weight_tables = {}
         self.element_tables = {}
 
+        # Number the domains in order of first use, so that symbol names
+        # do not depend on how many meshes were created before
+        self.domain_numbering: dict[ufl.AbstractDomain, int] = {}
+
         # Reusing a single symbol for all quadrature loops, assumed not to be nested.
         self.quadrature_loop_index = L.Symbol("iq", dtype=L.DataType.INT)
 
@@ -138,10 +142,9 @@ class FFCXBackendSymbols:
 
     def J_component(self, mt):
         """Jacobian component."""
-        return L.Symbol(
-            format_mt_name(f"J{ufl.domain.extract_unique_domain(mt.expr).ufl_id()}", mt),
-            dtype=L.DataType.REAL,
-        )
+        domain = ufl.domain.extract_unique_domain(mt.expr)
+        number = self.domain_numbering.setdefault(domain, len(self.domain_numbering))
+        return L.Symbol(format_mt_name(f"J{number}", mt), dtype=L.DataType.REAL)
 
     def domain_dof_access(self, dof, component, gdim, num_scalar_dofs, restriction):
         """Domain DOF access."""
